@@ -44,7 +44,8 @@ def c05(tier):
                 bm.append(U(f"bmc:{kind}:n{n}:L{L}:f{f}", "tab", "bmc", dict(kind=kind, n=n, L=L - 1, fixed=[f]), timeout=300))
     tw += [twin(bm[0]), twin(bm[-1])]
     sp = spec_units(tier)
-    return us + bm + sp + tw + [twin(sp[-1])]
+    tb = termbmc_units(tier)
+    return us + bm + sp + tb + tw + [twin(sp[-1]), twin(tb[0])]
 
 
 # ---------------------------------------------------------------------------------------------
@@ -130,7 +131,15 @@ def c03(tier):
     if tier == "quick":
         r = [u for u in r if u["params"]["phys"] != 3 or u["params"]["fixed"][0] == 0]
     sp = spec_units(tier)
-    return us + r + sp + [twin(us[0]), twin(r[0]), twin(sp[0])]
+    tb = termbmc_units(tier, alphs=("dt",))
+    # namespace rows only in version-2 streams, whatever version the caller passes explicitly
+    nsu = []
+    for integ in ("generic", "rdflib"):
+        for ev in (1, 2):
+            nsu.append(U(f"nsver:{integ}:v{ev}", "ns", "ns", dict(integ=integ, phys=1, names=8, prefixes=8, datatypes=8, nb=1, fixl=1,
+                         entry="stream_frames_sink" if integ == "generic" else "graph_serialize", pentry="flat", reser=False, setcmp=(integ == "rdflib"),
+                         explicit_version=ev), timeout=600))
+    return us + r + sp + tb + nsu + [twin(us[0]), twin(r[0]), twin(sp[0])]
 
 
 @prop("C19", functions=PIPE_FUNCS + TAB_FUNCS,
@@ -401,7 +410,7 @@ def c14(tier):
                 else:
                     entry, pentry = "graph_serialize", "flat"
                 base = dict(integ=integ, phys=phys, names=nm, prefixes=pf, datatypes=dt, entry=entry, pentry=pentry, reser=True, setcmp=(integ == "rdflib"))
-                us.append(U(f"ns:{integ}:p{phys}:t{nm}-{pf}-{dt}:nb0", "ns", "ns", dict(base, nb=0), timeout=600))
+                us.append(U(f"ns:{integ}:p{phys}:t{nm}-{pf}-{dt}:nb0", "ns", "ns", dict(base, nb=0, explicit_version=1), timeout=600))
                 if integ == "rdflib":
                     for fl in range(3):
                         us.append(U(f"ns:{integ}:p{phys}:t{nm}-{pf}-{dt}:nb1:l{fl}", "ns", "ns", dict(base, nb=1, fixl=fl), timeout=600))
@@ -605,4 +614,21 @@ def spec_units(tier):
             for f in range(4):
                 for g in range(4):
                     out.append(U(f"spec:{kind}:L5:f{f}{g}", "tab", "spec", dict(kind=kind, L=3, fixed=[f, g]), timeout=1800))
+    return out
+
+
+def termbmc_units(tier, alphs=("dt", "iri")):
+    out = []
+    K = 4 if tier == "quick" else 5
+    for integ in ("generic", "rdflib"):
+        for alph in alphs:
+            nal = 4 if alph == "dt" else 6
+            cfgs = [([8, 2, 2], False), ([8, 2, 2], True)] if alph == "dt" else [([2, 2, 2], False), ([3, 0, 2], False), ([2, 1, 2], False)]
+            if integ == "rdflib":
+                cfgs = cfgs[:1] if tier == "quick" else [c for c in cfgs if not c[1]]
+            for sizes, two in cfgs:
+                for f in range(nal):
+                    fx = [f] if tier == "quick" else [f]
+                    out.append(U(f"termbmc:{integ}:{alph}:t{'-'.join(map(str, sizes))}:two{int(two)}:f{f}", "termbmc", "termbmc",
+                                 dict(integ=integ, alph=alph, K=K, sizes=sizes, two=two, fixed=fx), timeout=900 if tier == "quick" else 3600))
     return out
